@@ -14,6 +14,7 @@ import (
 	"fmt"
 	"math"
 	"os"
+	"sort"
 	"strconv"
 	"strings"
 	"testing"
@@ -304,6 +305,29 @@ func TestC08Recovery(t *testing.T) {
 			s.fail("client did not take the final tick")
 		}
 		collect(unticked)
+		// In a third of the cases the final round happens at the moment the oldest
+		// reading the server still lacks sits exactly on (or just inside) the lower
+		// edge of the acceptance range: it must still be resent and accepted.
+		if rapid.IntRange(0, 2).Draw(t, "edgeFinal") == 0 {
+			snap := s.S.VerifSnapshot()
+			var lacking []uint32
+			for slot := range clientVal {
+				if int64(slot) < int64(snap.Offset) || int64(slot) >= int64(snap.Offset)+4032 {
+					continue
+				}
+				if snap.Reports[id][slot-snap.Offset].PowerOutput == 0 && int64(slot)+430 >= int64(s.now) {
+					lacking = append(lacking, slot)
+				}
+			}
+			sort.Slice(lacking, func(i, j int) bool { return lacking[i] < lacking[j] })
+			if len(lacking) > 0 {
+				target := lacking[0] + uint32(rapid.SampledFrom([]int{432, 432, 431, 430}).Draw(t, "edgeAge"))
+				if target >= s.now {
+					s.setClock(target)
+					ev.Label("c08:final-round-at-acceptance-edge")
+				}
+			}
+		}
 		// what is still missing before the final round (for the non-triviality rule)
 		if !syncRound(t, world.RelayOutcome{Kind: "pass"}) {
 			s.fail("the final sync round against a reachable server failed")
